@@ -77,6 +77,8 @@ type Config struct {
 	MaxBlockVisits int // per frame per block (unwinding assertion)
 	MaxConc        int // distinct values per concretisation point
 	MapOrderAll    bool
+	MapOrderSeeds     int  // with MapOrderAll: explore this many seeded assignments of start offsets to the map ranges of a path
+	MapOrderRotations bool // with MapOrderAll: only the rotations of the insertion order (Go's order for maps of <= 8 entries)
 	KnownOpen      map[string]bool // known finding ids with status open
 	SolverKind     string
 	TimeoutMs      int
@@ -129,6 +131,8 @@ type Machine struct {
 	hashers   map[*Value]*hasher
 	forkSites map[string]int
 	peers     map[string][]*sym.Term
+	mapOrderSeed int
+	mapRangeNo   int
 	inInit    bool
 	implCache map[string]bool
 	spawnHook func(fr *frame, fn Value, args []Value, site *ssa.CallCommon)
@@ -226,6 +230,12 @@ func (m *Machine) endPath(kind, msg string) {
 }
 
 func (m *Machine) unsupported(format string, args ...interface{}) {
+	if m.cfg.Trace {
+		fmt.Fprintf(os.Stderr, "  unsupported %q in:\n", fmt.Sprintf(format, args...))
+		for f, i := m.cur, 0; f != nil && i < 14; f, i = f.caller, i+1 {
+			fmt.Fprintf(os.Stderr, "     %s\n", f.fn.String())
+		}
+	}
 	panic(pathEnd{"unsupported", fmt.Sprintf(format, args...)})
 }
 
@@ -266,6 +276,7 @@ func (m *Machine) RunPath(entry *ssa.Function, item workItem) (res *PathResult) 
 	m.hashLog = nil
 	m.hashers = nil
 	m.peers = nil
+	m.mapOrderSeed, m.mapRangeNo = -1, 0
 	m.depth = 0
 	m.res = &PathResult{}
 	res = m.res
